@@ -10,6 +10,7 @@ import flow
 import gen
 import mockca
 import vlib
+from ext import auditd_c18
 
 FINISH = dict(
     level="proof",
@@ -27,7 +28,27 @@ FINISH = dict(
          "the TLS mock CA: requests seen (all, signed), attempt outcome judged by Spec.C18.holds against "
          "the scenario's ground truth; the dumped root list of the endpoint compared with the model's "
          "rootListOpt; plus two endpoints in one daemon (one lists the private root, the other nothing, both "
-         "servers use that CA) watched over several retries: the second must never receive a request. non-trivial = ground truth differs from 'trusted with no roots'.",
+         "servers use that CA) watched over several retries: the second must never receive a request. non-trivial = ground truth differs from 'trusted with no roots'. "
+         "py/ext/auditd_c18.py adds, judged by the same op (counts auditd:*): "
+         "LATE — the directory comes from a trusted listener A of the mock CA, one kind of URL it hands out (newNonce, "
+         "newAccount, newOrder, order Location, authorization, challenge, finalize, certificate) or a 301/302/303/307/308 "
+         "redirect of one request kind points at a second listener B whose chain is untrusted | for another host | "
+         "expired | issued by a root lying beside the listed root files but listed nowhere: B's request count is judged with chainValid=false (controls with a trusted B must pass through B). "
+         "ORDER — two or three files per source in both orders (--root-cert through the real command line, also as "
+         "--root-cert=FILE), the bad file before the good one, the bad file in another source than the needed root; "
+         "the all-fine multi-file cases with a trusted chain must SUCCEED (harness sanity: 'a listed root was not used'). "
+         "SHAPE — a root file that is empty / a directory / a private key only must fail closed; DER, leading text, CRLF "
+         "and two-certificate bundles are only counted (rootfile:<shape>:<trusted|refused>); root_certificates = [] "
+         "against an absent key at endpoint and global level. "
+         "INCLUDE — the [global] root list defined or replaced by included files (manual: the last included file that "
+         "defines the option wins; an included empty list replaces too), [global] only in the included file, the endpoint "
+         "defined in the included file; the dumped root list is compared with command line ++ endpoint ++ merged global. "
+         "SWAP — the server presents the trusted chain for the first k-1 connections (k = 2 and a random 3..8) or until "
+         "the first certificate was downloaded (forced renewal), then an untrusted | other-host | expired | unlisted-root chain: requests on "
+         "connections made after the swap are judged with chainValid=false over two attempts. "
+         "HOST — https://[::1] with / without an iPAddress SAN, https://LOCALHOST, an IP held only as dNSName, a certificate "
+         "not yet valid, a 3-level chain with the intermediate sent / omitted, a self-signed server certificate not listed "
+         "(listed as root: counted only).",
 )
 
 KINDS = ["trusted", "untrusted", "wrong-host", "expired"]
@@ -206,6 +227,7 @@ def run(ctx):
         with concurrent.futures.ThreadPoolExecutor(max_workers=12) as ex:
             results = list(ex.map(lambda a: scenario(a[0], root, mat, a[1][0], a[1][1], a[1][2], helper, env_root=a[1][3]),
                                   enumerate(grid)))
+        more = auditd_c18.start(ctx, root, mat, helper)   # runs beside the two-endpoint scenarios
         two = [two_endpoints(i, root, mat, helper, first, with_global=g)
                for i, (first, g) in enumerate([("A", False), ("B", False), ("A", True), ("B", True)])]
         for t in two:
@@ -237,6 +259,7 @@ def run(ctx):
             if r["chain_valid"] and r["root_files_ok"] and r["requests_seen"] == 0:
                 ctx.broke("harness", "no request although the chain is trusted: the TLS mock or the grid is broken", robj)
         ctx.traces += len(results)
+        auditd_c18.finish(ctx, more)
         ctx.sample({k: results[0][k] for k in ("kind", "combo", "fstate", "chain_valid", "requests_seen", "attempt_ok")})
         ctx.sample({k: results[-1][k] for k in ("kind", "combo", "fstate", "chain_valid", "requests_seen", "attempt_ok")})
     finally:
@@ -253,6 +276,8 @@ def replay(ctx):
     obj = r.get("replay", r)
     vlib.build_acmed()
     vlib.build_helper()
+    if isinstance(obj.get("auditd"), dict):
+        return auditd_c18.replay(ctx, obj["auditd"], make_material)
     helper = mockca.Helper()
     root = os.path.join(vlib.BUILD, "scratch", "c18-replay")
     shutil.rmtree(root, ignore_errors=True)
